@@ -25,6 +25,9 @@ META = dict(
          "identically (in-band NEWKEYS handled by the real _parse_newkeys) until it fails or runs out of data; about half "
          "of the streams of every framing family are decoded by a receiver in its debugging configuration (DEBUG log "
          "channel + set_hexdump(True)). "
+         "Long streams: 800-1500 packets in ONE key epoch (GCM on every shard, etm/classic too) with whole-packet replay / "
+         "substitute / swap / drop-a-run edits at distances 1, 2, 255, 256, 257, 512, 768 (counter carries across byte "
+         "boundaries). "
          "Deciding oracle: the delivered (type, payload) list must be a prefix of the sent list. Stronger monitor of the "
          "same mechanism: because every byte of an encrypted packet is covered by the MAC/tag in all three framing "
          "modes, no packet that overlaps the first modified byte may be delivered at all (catches truncated or skipped "
@@ -268,6 +271,58 @@ def structural_edits(ctx, rng, R, quick):
         decode(ctx, R, t, op)
 
 
+# ---------------------------------------------------------------------------
+# long streams in one key epoch: packet-granular edits at distances around the byte boundaries of the counters
+# ---------------------------------------------------------------------------
+DISTANCES = (1, 2, 255, 256, 257, 512, 768)
+
+
+def long_stream_edits(ctx, rng, cipher, mac, comp, npk, positions_per_distance):
+    """600-1500 packets under ONE key epoch (every payload unique), then for each distance d: replay packet i after
+    d packets, substitute packet i+d by packet i, swap i and i+d, drop the run i..i+d-1.  The AEAD invocation counter
+    (GCM) / the sequence number in the MAC (classic, etm) must make every one of them fail: a counter whose carry
+    across a byte boundary is broken repeats after 256 packets."""
+    import struct as _st
+
+    b = pb.Bench(rng, cipher, mac, comp, sender_role=rng.choice(["client", "server"]), strict=rng.random() < 0.25,
+                 hash_name=rng.choice(pb.HASHES), rev=pb.draw_reverse(rng, npk, BYFAM))
+    b.rekey()
+    for i in range(npk):
+        b.send(bytes([pb.rand_type(rng)]) + _st.pack(">I", i) + pb.rand_payload(rng, rng.randint(1, 12)))
+    R = Recorded(b, cipher, mac, comp)
+    R.desc["kind"] = "long stream, one key epoch"
+    fam = pb.framing_mode(cipher, mac) or "unknown-suite"
+    rx = b.receiver()
+    rx.drain(R.wire)
+    if rx.delivered == R.sent:
+        ctx.count("long_streams_decoding_untampered")
+    ctx.count("long_streams_recorded_%s" % fam)
+    ctx.count("long_stream_packets", npk)
+    ctx.note("long_stream_max_packets_in_one_epoch", max(ctx.notes.get("long_stream_max_packets_in_one_epoch", 0), npk))
+    if len(ctx.samples) < 4:
+        ctx.case(("long", R.sid), sample=dict(R.desc, packets=npk, distances=list(DISTANCES),
+                                              ops="replay-after-d / substitute / swap / drop-run-of-d"))
+    parts = [R.region[s_:e_] for s_, e_, _, _ in R.pk]
+    n = len(parts)
+    for d in DISTANCES:
+        if d + 2 >= n:
+            continue
+        starts = set([rng.randint(0, 20)])
+        while len(starts) < positions_per_distance:
+            starts.add(rng.randint(0, min(n - d - 2, 300)))
+        for i in sorted(starts):
+            edits = [
+                ("replay_after_%d:%d" % (d, i), parts[:i + d] + [parts[i]] + parts[i + d:]),
+                ("substitute_at_%d:%d" % (d, i), parts[:i + d] + [parts[i]] + parts[i + d + 1:]),
+                ("swap_at_%d:%d" % (d, i), parts[:i] + [parts[i + d]] + parts[i + 1:i + d] + [parts[i]] + parts[i + d + 1:]),
+                ("drop_run_of_%d:%d" % (d, i), parts[:i] + parts[i + d:]),
+            ]
+            for op, q in edits:
+                decode(ctx, R, b"".join(q), op)
+                ctx.count("long_stream_edits_distance_%d" % d)
+                ctx.count("long_stream_edits_%s" % fam)
+
+
 def run(ctx):
     rng = ctx.rng
     eq = EqContract(ctx)
@@ -346,6 +401,25 @@ def run(ctx):
         if stopped:
             ctx.count("stopped_on_time_cap")
             break
+    # long streams: GCM on every shard (both key sizes over the shards), etm / classic on alternating shards
+    plans = []
+    if BYFAM["gcm"]:
+        plans.append(BYFAM["gcm"][(ctx.shard * 3) % len(BYFAM["gcm"])])
+        if not ctx.quick:
+            plans.append(rng.choice(BYFAM["gcm"]))
+    other = "etm" if ctx.shard % 2 == 0 else "classic"
+    if BYFAM[other]:
+        plans.append(rng.choice(BYFAM[other]))
+    for (c, m) in plans:
+        npk = rng.randint(800, 900) if ctx.quick else rng.randint(900, 1500)
+        long_stream_edits(ctx, rng, c, m, "none", npk, 2 if ctx.quick else 6)
+    for f in pb.FAMILIES:
+        if BYFAM[f]:
+            ctx.require("long_streams_recorded_%s" % f, 8 if f == "gcm" else 3)
+    for d in DISTANCES:
+        ctx.require("long_stream_edits_distance_%d" % d, 64)
+    ctx.require("long_stream_edits_gcm", 300)
+    ctx.require("long_streams_decoding_untampered", 8)
     ctx.require("streams_recorded", len(suites))
     ctx.require("streams_decoding_untampered", len(suites) // 4)
     ctx.require("streams_mixed_family_pairs", len(suites) // 2)
